@@ -13,6 +13,7 @@ import MatidGen.ClusterRule
 import MatidGen.AnalyzerRule
 import MatidGen.SbcRule
 import MatidGen.ProtoRule
+import MatidGen.RegionRule
 
 open Matid Matid.Parse
 
@@ -218,6 +219,41 @@ def opAdaptCell (args : List String) : String :=
     match parseCell? cs, idx.toNat?, parseV3s? pN, pf fN, pn addS, pn subS, parseV3s? spanS with
     | some c, some idx, some [pN], some fN, some add, some sub, some [span] => showV (adaptiveVector c idx pN fN add sub span)
     | _, _, _, _, _, _, _ => "bad-op"
+  | _ => "bad-op"
+
+/-- `region <is2d> <tol2> <seed> <seedPos> <basis> <positions> <fuel> <oracles>` : region tracking on recorded oracle answers.
+oracles: entries separated by `|`, each `found;substs;vacs;S|N;sfound;sdisps` (`_` = None) -/
+def opRegion (args : List String) : String :=
+  open Matid.Region in
+  let pOpt (s : String) : Option (Option Nat) := if s == "_" then some none else (s.toNat?).map some
+  let pOracle (s : String) : Option (RecO × SeedO) :=
+    match s.splitOn ";" with
+    | [f, su, v, _, sf, sd] => do
+      let found ← parseList? pOpt f
+      let substs ← parseList? pOpt su
+      let vacs ← parseV3s? v
+      let sfound ← parseList? pOpt sf
+      let sdisps ← parseV3s? sd
+      let disps := (sfound.zip sdisps).map fun (m, d) => if m.isSome then some d else none
+      pure ({ found := found, substs := substs, vacs := vacs }, { found := sfound, disps := disps })
+    | _ => none
+  let sOpt (o : Option Nat) : String := match o with | some n => toString n | none => "_"
+  let sCell (c : Cell) : String := showV c.a ++ "," ++ showV c.b ++ "," ++ showV c.c
+  match args with
+  | [d2, tolS, seedS, spS, bS, posS, fuelS, orS] =>
+    match parseBool? d2, parseRat? tolS, seedS.toNat?, parseV3s? spS, parseCell? bS, parseV3s? posS, fuelS.toNat?,
+          (if orS == "-" then some [] else (orS.splitOn "|").mapM pOracle) with
+    | some is2d, some tol2, some seed, some [sp], some basis, some pos, some fuel, some os =>
+      let st := findRegion MatidGen.RegionRule.rule is2d pos tol2 seed sp basis fuel os
+      let units := st.units.map fun u =>
+        showF u.index ++ ":" ++ sOpt u.seed ++ ":" ++ showV u.seedPos ++ ":" ++ sCell u.cell ++ ":" ++ showList sOpt u.basis ++ ":" ++
+          showList sOpt u.substs ++ ":" ++ toString u.vacs.length
+      let icm := (basisIndices st.units ++ (st.icm.map (·.1))).eraseDups.filterMap fun i => (icmGet st.icm i).map fun c => toString i ++ "=" ++ showF c
+      let edges := st.edges.map fun e => showF e.1 ++ ">" ++ showF e.2.1 ++ ">" ++ showF e.2.2
+      s!"{st.calls};{st.seedCalls};{st.queue.length} " ++ (if units.isEmpty then "-" else "|".intercalate units) ++ " " ++
+        (if icm.isEmpty then "-" else "|".intercalate icm) ++ " " ++ (if edges.isEmpty then "-" else "|".intercalate edges) ++ " " ++
+        showList toString (basisIndices st.units) ++ " " ++ String.join ((connectedDirections st.edges).map showBool)
+    | _, _, _, _, _, _, _, _ => "bad-op"
   | _ => "bad-op"
 
 /-- `extend <cell> <pbc> <cutoff> <positions>` -/
@@ -581,6 +617,7 @@ def step (line : String) : String :=
   | "idstring" :: args => opIdString args
   | "extend" :: args => opExtend args
   | "adaptcell" :: args => opAdaptCell args
+  | "region" :: args => opRegion args
   | "withinbasis" :: args => opWithinBasis args
   | "query" :: args => opQuery args
   | "disp" :: args => opDisp args
